@@ -433,6 +433,50 @@ def case_zero_roundtrip(prog, cfg):
     return case
 
 
+def case_failed_compute(prog, cfg):
+    """C13 on stocks: a compute() that raises (here: scipy refusing a NaN in a later label's prescribed stock) leaves every array of
+    the stock as it was.  Whether compute() raises at all is not demanded (the manual solver propagates the NaN)."""
+    sw = SW(prog, cfg["n_t"], cfg["labels"])
+    sw.layout = cfg.get("layout")
+    dist, solver = cfg["dist"], cfg["solver"]
+    case = SCase("failed-compute", "StockDrivenDSM.compute", dict(cfg_desc(cfg), solver=solver,
+                                                                   history=["compute()", "stock := new values with NaN at the LAST label", "compute()"]))
+    def start():
+        lm, _, _ = make_lifetime(sw, dist, cfg["over"], inflow_at=cfg["inflow_at"], n_pts=cfg["n_pts"])
+        st = build_stock(sw, "StockDrivenDSM", lm, stock=sw.driver("st"), solver=solver)
+        sw.it.call_method(st, "compute")
+        return st
+    kind, st = run_guarded(start)
+    if kind != "ok":
+        return case
+    d2 = sw.driver("st2")
+    nan = Rat.sym("nan")
+    bad = d2.copy()
+    for idx in bad.indices():
+        if idx[1:] and idx[-1] == sw.shape[-1] - 1 and idx[0] == 1:
+            bad.set(idx, nan)
+    kind, r = run_guarded(lambda: sw.it.call_method(st.f["stock"], "__setitem__", Ellipsis, bad.copy()))
+    if kind != "ok":
+        return case
+    before = {k: (st.f[k].f["values"], list(st.f[k].f["values"].data)) for k in ("stock", "inflow", "outflow")}
+    tabs = {k: (st.f.get(k), list(st.f[k].data) if isinstance(st.f.get(k), SArr) else None) for k in ("_stock_by_cohort", "_outflow_by_cohort")}
+    kind, r = run_guarded(lambda: sw.it.call_method(st, "compute"))
+    if kind != "raise":
+        return case
+    changed = []
+    for k, (obj, data) in before.items():
+        v = st.f[k].f["values"]
+        if v is not obj or any(not (x == y) for x, y in zip(v.data, data)):
+            changed.append(k)
+    for k, (obj, data) in tabs.items():
+        v = st.f.get(k)
+        if (v is not obj) or (isinstance(v, SArr) and any(not (x == y) for x, y in zip(v.data, data))):
+            changed.append(k.strip("_"))
+    case.v("atomic", not changed, f"compute() raised ({getattr(r, 'exc_name', '')}: {getattr(r, 'msg', '')[:60]}) but left {', '.join(changed)} changed: the "
+                                  f"stock object is half-updated by a failed call")
+    return case
+
+
 def case_simple(prog, cfg):
     sw = SW(prog, cfg["n_t"], cfg["labels"])
     sw.layout = cfg.get("layout")
